@@ -674,55 +674,6 @@ func c19GetAll(p *Prog, r *Report) {
 	r.Floor("C19.d", "GetAll-error-sources", len(sites), 2)
 	for _, s := range sites {
 		cons := kFileGetAll + "#" + types.ExprString(s.Call.Fun)
-		c5ErrorReaches(p, r, "C19.d", cons, ga, f, s)
+		f.SiteConsumed(r, "C19.d", cons, ga, s, flowOpts{Class: true})
 	}
-}
-
-// c5ErrorReaches checks that the error bound at a call site is returned on every path on which it
-// may be non-nil (not dropped, not overwritten, not swallowed by a nil return).
-func c5ErrorReaches(p *Prog, r *Report, rule, cons string, fi *FuncInfo, f *Flat, s callSite) bool {
-	switch s.Kind {
-	case "returned":
-		r.Hold(rule, cons, p.pos(s.Call), "returned directly")
-		return true
-	case "assigned":
-	default:
-		r.Viol(rule, cons, p.pos(s.Call), "error result is "+s.Kind)
-		return false
-	}
-	st := f.ErrStatesFrom(s.Node, s.ErrVar)
-	info := fi.Pkg.TypesInfo
-	sig := fi.Obj.Type().(*types.Signature)
-	ok := true
-	detail := ""
-	for _, id := range f.ReturnNodes() {
-		states := st.at(id)
-		if len(states) == 0 {
-			continue
-		}
-		rs := f.returnStmt(id)
-		uses := false
-		if rs != nil {
-			for _, e := range rs.Results {
-				if usesObj(info, e, s.ErrVar) {
-					uses = true
-				}
-			}
-			if len(rs.Results) == 0 && sig.Results().Len() > 0 {
-				// bare return: fine if the variable is the named result
-				for i := 0; i < sig.Results().Len(); i++ {
-					if sig.Results().At(i) == s.ErrVar {
-						uses = true
-					}
-				}
-			}
-		}
-		if !uses {
-			ok = false
-			detail = fmt.Sprintf("the function returns at %s while the error may be non-nil (%s) without returning it", p.pos(f.Nodes[id].Ast), strings.Join(states, ","))
-		}
-	}
-	// overwritten before use?
-	r.Check(ok, rule, cons, p.pos(s.Call), "error returned on every path on which it may be non-nil", detail)
-	return ok
 }
